@@ -112,4 +112,29 @@ def owedNode (s : State) : Int :=
 def solventOrder (e : Env) (s : State) : Bool := s.bal e.modOrder ≥ owedOrder s
 def solventNode (e : Env) (s : State) : Bool := s.bal e.modNode ≥ owedNode s
 
+/-! ### C17 DID registry integrity -/
+/-- an account id is bound to at most one DID -/
+def didFunctional (d : DidState) : Bool :=
+  d.did.all (fun x => (d.did.filter (fun y => y.accountId = x.accountId)).length = 1)
+
+/-- every binding appears in its DID's account list (through an accountDid whose stored
+    account id is that account), and every listed accountDid is backed by a binding to that DID -/
+def didListsAgree (d : DidState) : Bool :=
+  d.did.all (fun x => ((Map.find? d.accountList x.did).getD []).any (fun ad => Map.find? d.accountId ad = some x.accountId)) &&
+  d.accountList.all (fun (did, ads) => ads.all (fun ad =>
+    match Map.find? d.accountId ad with
+    | some acc => (d.did.find? (·.accountId = acc)).map (·.did) = some did
+    | none => false))
+
+/-- a sid DID's payment address is one of its currently bound accounts on this chain -/
+def sidPayAddrBound (d : DidState) : Bool :=
+  d.paymentAddress.all (fun (did, a) => !did.isSid || d.did.any (fun x => x.did = did && x.addr = a && a ≠ 0))
+
+/-- a key DID's payment address is the address linked to it, and an address links to one key DID -/
+def keyPayAddrSelf (d : DidState) : Bool :=
+  d.paymentAddress.all (fun (did, a) => !did.isKey || Map.find? d.kid a = some did) &&
+  d.kid.all (fun (a, did) => Map.find? d.paymentAddress did = some a)
+
+def didInv (d : DidState) : Bool := didFunctional d && didListsAgree d && sidPayAddrBound d && keyPayAddrSelf d
+
 end SaoVerif.Spec
